@@ -304,6 +304,8 @@ func (o *Oracle) reqs(idx int, op Op, res string, pre, post *Dump) {
 		rec, _ := kvRec(post, "launched-flag")
 		if rec == nil || !rec.Finalized {
 			o.fail("C09", "launch_recorded", "launch-flag-missing", "accepted launch did not record a finalized launched flag", idx)
+			// the flags the DB writes itself are write-once like any finalized key (C13)
+			o.fail("C13", "finalized_immutable", "db-written-flag-not-finalized", "the launched flag written by the DB itself is not finalized: a later KV write can change it", idx)
 		}
 		if post.LaunchDeadline <= pre.Tick {
 			o.fail("C09", "deadline_set", "no-deadline", fmt.Sprintf("deadline %d not after acceptance time %d", post.LaunchDeadline, pre.Tick), idx)
